@@ -39,20 +39,20 @@ class Mean(Aggregation):
         if len(new):
             totals = totals + new.sum()
             counts = counts + new.count()
-        divisor = counts
         if isinstance(counts, Number) and counts == 0:
-            divisor = 1  # guard the division only; the state keeps the true count
-        return (totals, counts), totals / divisor
+            # no observation yet: pandas reports NaN (and 0 / 0 on plain Python zeros would raise)
+            return (totals, counts), np.nan
+        return (totals, counts), totals / counts
 
     def on_old(self, acc, old):
         totals, counts = acc
         if len(old):
             totals = totals - old.sum()
             counts = counts - old.count()
-        divisor = counts
         if isinstance(counts, Number) and counts == 0:
-            divisor = 1  # guard the division only; the state keeps the true count
-        return (totals, counts), totals / divisor
+            # no observation yet: pandas reports NaN (and 0 / 0 on plain Python zeros would raise)
+            return (totals, counts), np.nan
+        return (totals, counts), totals / counts
 
     def initial(self, new):
         s, c = new.sum(), new.count()
